@@ -197,7 +197,11 @@ def main(argv=None):
     # ---- classify violations ----
     by_sig = {}
     for v in total.violations:
-        by_sig.setdefault(v["sig"], v)
+        # one witness per signature: the smallest case (deterministic, independent of the pool's completion order)
+        key = (len(json.dumps(v["case"], sort_keys=True)), json.dumps(v["case"], sort_keys=True))
+        if v["sig"] not in by_sig or key < by_sig[v["sig"]][0]:
+            by_sig[v["sig"]] = (key, v)
+    by_sig = {k: v for k, (_, v) in sorted(by_sig.items())}
     unlisted, listed = [], {}
     for sig, v in by_sig.items():
         k = match_known(sig, known)
@@ -218,7 +222,7 @@ def main(argv=None):
         "traces_validated_against_impl": total.traces if total.traces else total.evaluations,
         "exhaustive": bool(exhaustive),
         "bounds": jsonable(getattr(mod, "BOUNDS", {}).get(tier, {})),
-        "caps_hit": total.caps,
+        "caps_hit": sorted(total.caps),
         "distinct_outcomes": len(total.outcomes),
         "refused": total.refused,
         "work_items": len(items),
